@@ -3,13 +3,17 @@ from .common import COMMON_ASSUME
 CFG = {
     "props_module": "RpmVerif.Props.C11",
     "required_theorems": ["RpmVerif.C11.build_deterministic", "RpmVerif.C11.build_bytes_deterministic", "RpmVerif.C11.buildtime_clamped",
-                          "RpmVerif.C11.mtimes_clamped", "RpmVerif.C11.owners_order_independent", "RpmVerif.C11.sign_time_deterministic"],
+                          "RpmVerif.C11.mtimes_clamped", "RpmVerif.C11.owners_order_independent", "RpmVerif.C11.sign_time_deterministic",
+                          # AUDIT2 c35 - c37: signed builds, the signature's creation time, the archive, accessor-level mtimes
+                          "RpmVerif.C11.clampNow_le", "RpmVerif.C11.build_sign_bytes_deterministic", "RpmVerif.C11.sigtime_clamped",
+                          "RpmVerif.C11.archive_entries_spec", "RpmVerif.C11.archive_clock_free", "RpmVerif.C11.file_entry_mtimes_clamped"],
     "trivial_branches": ["build-rejected"],
     "rule": "C06-style random configurations with a source date in the past of every clock used and 0..5 extra files owned by distinct non-root users / "
             "groups (the former HashSet order), file mtimes before and after the source date; every configuration is built 5 times in-process with "
             "different pinned clocks and in 2 (quick) / 4 (thorough) freshly started child processes (different RandomState seeds, TZ, LANG, environment), "
             "a quarter signed with Ed25519 and a few with RSA-4096 (deterministic schemes; ECDSA excluded); all package bytes are compared, the main "
-            "header also with the model's byte-exact prediction; build time, max file mtime and signature creation time are read back. "
+            "header also with the model's byte-exact prediction; build time, max file mtime, the greatest c_mtime of the cpio archive and the signature creation time are read back - the latter from the legacy tag AND from every "
+            "base64 item under RPMSIGTAG_OPENPGP (count, creation times, byte-equality of the two copies). "
             "Non-trivial = build accepted; distinct = distinct requests.",
     "exhaustive": False,
     "shards": {"quick": 8, "thorough": 16},
@@ -19,7 +23,12 @@ CFG = {
     "level_text": "Theorems for EVERY configuration: with a source date not later than either clock reading, the main header and the whole unsigned package are "
                   "identical for both clocks (the clock enters only through clampNow); the signature timestamp is clamped identically; build time and every "
                   "recorded file mtime are ≤ the source date; the generated user()/group() dependencies are independent of the order in which owners are "
-                  "encountered (sorted set). That the real build has no OTHER hidden input is what the correspondence tests: repeated in-process and "
+                  "encountered (sorted set). build_sign_bytes_deterministic: build_and_sign (two clock readings per run) returns the same package and writes the same bytes for every "
+                  "signature scheme whose sign is a function of (key, data, time); sigtime_clamped: the signature header build_and_sign installs holds one signature - base64 under OPENPGP, raw under the "
+                  "legacy tag - which is the sealed SignatureConfig Signer::sign assembles for the time clampNow(source date, clock), whose creation time read back from the packet is that time, <= source date for "
+                  "EVERY clock (clampNow_le o C10 config_created_eq; also for a source date in the future); archive_clock_free + archive_entries_spec: with the archive = C09.archiveFor(configuration, uid, gid, files) and the payload = "
+                  "any FUNCTION compress of it the whole written package is identical for both clocks, every cpio entry carrying only name, position as inode, mode, uid, gid (c_mtime = 0); "
+                  "file_entry_mtimes_clamped: every modified_at that get_file_entries reports for the built package is <= source date. That the real build has no OTHER hidden input is what the correspondence tests: repeated in-process and "
                   "cross-process builds must be byte-identical and equal to the model's predicted header.",
     "level_note": "Trusted: Lean kernel; model fidelity as exercised; absence of further hidden inputs is tested, not proved.",
 }
